@@ -190,6 +190,22 @@ func vBez3(p0, p1, p2, p3, t Fl) Fl {
 //@   nopanic
 //@   requires ra != nil && rb != nil
 //@   modifies *ra, *rb
+//@   ensures[ratio] old(*rb) != 0 ==> *ra * old(*rb) == *rb * old(*ra)
+//@   ensures[grow-only] old(*rb) > 0 && old(*ra) > 0 ==> *rb >= old(*rb) && *ra >= old(*ra)
+
+// each SVG transform function is stored with the kind and the argument
+// slots that transform.toMatrix reads (skewY(a) is skew(0, a); scale(s) is scale(s, s);
+// translate(x) is translate(x, 0); the other forms keep their arguments in order)
+//@ func parseTransform
+//@   props C17
+//@   modifies anything
+//@   call append#1 assert[skewy] transformKind == "skewy" ==> L == 1 && tr.kind == skew && tr.args[0].V == 0 && tr.args[0].U == Px && tr.args[1] == points[0]
+//@   call append#1 assert[skewx] transformKind == "skewx" ==> L == 1 && tr.kind == skew && tr.args[0] == points[0] && tr.args[1].V == 0
+//@   call append#1 assert[skew] transformKind == "skew" ==> L == 2 && tr.kind == skew && tr.args[0] == points[0] && tr.args[1] == points[1]
+//@   call append#1 assert[scale] transformKind == "scale" ==> tr.kind == scale && tr.args[0] == points[0] && ((L == 1 && tr.args[1] == points[0]) || (L == 2 && tr.args[1] == points[1]))
+//@   call append#1 assert[translate] transformKind == "translate" ==> tr.kind == translate && tr.args[0] == points[0] && ((L == 1 && tr.args[1].V == 0 && tr.args[1].U == Px) || (L == 2 && tr.args[1] == points[1]))
+//@   call append#1 assert[rotate] transformKind == "rotate" ==> tr.args[0] == points[0] && ((L == 1 && tr.kind == rotate) || (L == 3 && tr.kind == rotateWithOrigin && tr.args[1] == points[1] && tr.args[2] == points[2]))
+//@   call append#1 assert[matrix] transformKind == "matrix" ==> L == 6 && tr.kind == customMatrix && forall(i, 0, 6, tr.args[i] == points[i])
 
 // the arc ends exactly at the end point given in the path data
 //@ func (*pathParser).addArc
